@@ -31,7 +31,7 @@ def S(s):
     try:
         float(s); looks = True
     except ValueError:
-        looks = s.strip() != s or s.lower().startswith(("0x", "0b", "+")) or s.lower() in ("true", "false", "t", "f")
+        looks = s.strip() != s or s.lower().startswith("+") or s.lower() in ("true", "false", "t", "f")      # (a 0x / 0b prefix is not a DECIMAL numeral: decided, never equal to a number)
     return V("str", s=s, openstr=looks)
 def L(*es): return V("list", es=list(es))
 def M(*kv): return V("map", es=sorted([L(k, v) for k, v in kv], key=lambda p: json.dumps(p["es"][0], sort_keys=True)))
